@@ -200,6 +200,18 @@ cd __MRO_JOB_WORKDIR__ || exit 7
 /usr/bin/env __MRO_CMD__ > __MRO_STDOUT__ 2> __MRO_STDERR__
 `
 
+const tmplOwnLine = `#!/bin/sh
+#$ -N __MRO_JOB_NAME__
+#$ -pe threads __MRO_THREADS__
+#$ -l mem_free=__MRO_MEM_GB__G
+#$ -o __MRO_STDOUT__
+#$ -e __MRO_STDERR__
+#$ -A __MRO_ACCOUNT__
+#$ -l __MRO_RESOURCES__
+
+__MRO_CMD__
+`
+
 // values that look like template parameters must come through like any other text
 var placeholders = []string{"__MRO_JOB_NAME__", "__MRO_THREADS__", "__MRO_STDOUT__", "__MRO_STDERR__", "__MRO_JOB_WORKDIR__",
 	"__MRO_CMD__", "__MRO_MEM_GB__", "__MRO_MEM_MB__", "__MRO_VMEM_GB__", "__MRO_ACCOUNT__", "__MRO_RESOURCES__"}
@@ -218,6 +230,11 @@ func scripts(rows []Row, dir string, rep *Report) {
 	for i := 0; i < len(rows); i += step {
 		items = append(items, item{concrete(rows[i].S), rows[i].S})
 	}
+	// values a shell would expand if they were ever left unquoted
+	for _, v := range []string{"/opt/tools/lib:~/lib", "a:~", "~", "~root", "x=~/y", "a b", "*", "?", "[a]", "{a,b}", "$HOME", "a;b", "a&b",
+		"a|b", "a>b", "a<b", "(a)", "#a", "a\\b", "-n", "--", "a\tb", "a\nb", "%s", "!!"} {
+		items = append(items, item{v, []string{"expansion " + v}})
+	}
 	for _, ph := range placeholders {
 		items = append(items, item{"run" + ph, []string{"placeholder " + ph}}, item{ph + " x " + ph, []string{"placeholder " + ph}})
 	}
@@ -234,38 +251,56 @@ func scripts(rows []Row, dir string, rep *Report) {
 			continue
 		}
 		envs := map[string]string{"VERIF_PROBE_ENV": s, "ZZ": "__MRO_CMD__" + s}
-		script := core.VerifJobScript(tmpl, self, []string{"probe", s, "second " + s},
-			envs, md, "ID.x.P.S.fork0", "main", 1, 1)
-		sp := filepath.Join(dir, "job.sh")
-		os.WriteFile(sp, []byte(script), 0755)
-		cmd := exec.Command("/bin/sh", sp)
-		cmd.Dir = dir
-		cmd.Env = []string{"PATH=/usr/bin:/bin", "LC_ALL=C"}
-		err := cmd.Run()
-		rep.Scripts++
-		out, rerr := os.ReadFile(filepath.Join(md, "_stdout"))
-		var got struct {
-			Argv []string `json:"argv"`
-			Env  string   `json:"env"`
-			ZZ   string   `json:"zz"`
-			Cwd  string   `json:"cwd"`
-		}
 		bad := ""
-		if err != nil {
-			bad = "script failed: " + err.Error()
-		} else if rerr != nil {
-			bad = "stdout not at the metadata path: " + rerr.Error()
-		} else if json.Unmarshal(out, &got) != nil {
-			bad = "probe output unreadable: " + string(out)
-		} else if unhex(&got.Env, &got.ZZ, &got.Cwd) && unhexs(got.Argv) && false {
-		} else if len(got.Argv) != 2 || got.Argv[0] != s || got.Argv[1] != "second "+s {
-			bad = fmt.Sprintf("argv %q", got.Argv)
-		} else if got.Env != s {
-			bad = fmt.Sprintf("environment value %q", got.Env)
-		} else if got.ZZ != "__MRO_CMD__"+s {
-			bad = fmt.Sprintf("environment value containing a placeholder %q", got.ZZ)
-		} else if got.Cwd != filepath.Join(md, "files") {
-			bad = fmt.Sprintf("working directory %q", got.Cwd)
+		script := ""
+		// two template styles: redirections in the command line, and the command on
+		// a line of its own as in the shipped templates (output handled by directives)
+		for style, t := range []string{tmpl, tmplOwnLine} {
+			mdp := md
+			if style == 1 && strings.Contains(s, "\n") {
+				// a scheduler directive is a comment line: no quoting can carry a
+				// newline there, so such a path is not put into this template
+				mdp = filepath.Join(dir, "scr", "md_plain")
+				os.MkdirAll(filepath.Join(mdp, "files"), 0755)
+			}
+			script = core.VerifJobScript(t, self, []string{"probe", s, "second " + s},
+				envs, mdp, "ID.x.P.S.fork0", "main", 1, 1)
+			sp := filepath.Join(dir, "job.sh")
+			os.WriteFile(sp, []byte(script), 0755)
+			cmd := exec.Command("/bin/sh", sp)
+			cmd.Dir = dir
+			cmd.Env = []string{"PATH=/usr/bin:/bin", "LC_ALL=C", "HOME=/nonexistent/verif-home"}
+			stdout, err := cmd.Output()
+			rep.Scripts++
+			out, rerr := stdout, error(nil)
+			if style == 0 {
+				out, rerr = os.ReadFile(filepath.Join(md, "_stdout"))
+			}
+			var got struct {
+				Argv []string `json:"argv"`
+				Env  string   `json:"env"`
+				ZZ   string   `json:"zz"`
+				Cwd  string   `json:"cwd"`
+			}
+			if err != nil {
+				bad = "script failed: " + err.Error()
+			} else if rerr != nil {
+				bad = "stdout not at the metadata path: " + rerr.Error()
+			} else if json.Unmarshal(out, &got) != nil {
+				bad = "probe output unreadable: " + string(out)
+			} else if unhex(&got.Env, &got.ZZ, &got.Cwd) && unhexs(got.Argv) && false {
+			} else if len(got.Argv) != 2 || got.Argv[0] != s || got.Argv[1] != "second "+s {
+				bad = fmt.Sprintf("argv %q", got.Argv)
+			} else if got.Env != s {
+				bad = fmt.Sprintf("environment value %q", got.Env)
+			} else if got.ZZ != "__MRO_CMD__"+s {
+				bad = fmt.Sprintf("environment value containing a placeholder %q", got.ZZ)
+			} else if style == 0 && got.Cwd != filepath.Join(md, "files") {
+				bad = fmt.Sprintf("working directory %q", got.Cwd)
+			}
+			if bad != "" {
+				break
+			}
 		}
 		if bad != "" {
 			rep.Violations = append(rep.Violations, Finding{Kind: "job-script", S: fmt.Sprintf("%q", s),
